@@ -5,7 +5,12 @@ Correspondence: the mexp programs of coq/Model/KPCovR.v are evaluated on binary6
 decompositions of the model's own matrices as oracle hints (their hypotheses are re-checked in
 Coq), and compared with pkt_ pkt_^T, pky_, pty_^T pty_, transform, predict and score of the
 implementation.  Search: the five equivalences of the property executed on the implementation
-(harness/kpcovr_c05.py::oracle)."""
+(harness/kpcovr_c05.py::oracle).
+
+Round 3 families: HISTORIES (one estimator object fitted several times with set_params / new data in
+between; each stage is checked like an independent case - justified by C05_refit_is_fresh_fit of the
+object model coq/Model/KPCovRState.v - and against a fresh estimator; NotFittedError / AttributeError
+probes) and GUARDS (rejection branches of fit / check_krr_fit against coq/Model/KPCovRGuard.v)."""
 import collections
 import re
 
@@ -59,23 +64,19 @@ def run(ctx):
     po = C.proof_obligations(ctx.prop)
     fok, fout, _ = C.coq_make(["Findings/F4_kpcovr_score_blocks.vo"], timeout=600)
     ncases = 500 if ctx.quick else 4000
-    cases, recs, infos, ests = [], [], [], []
+    nhist = 160 if ctx.quick else 900
+    # items: independent cases, then the stages of the histories (one estimator object refitted)
+    cases, recs, infos, premsgs, origin = [], [], [], [], []
     st = dict(kernel=collections.Counter(), regressor=collections.Counter(), center=collections.Counter(),
               mixing=collections.Counter(), skipped=collections.Counter(), score_sets=collections.Counter(),
-              y1d=0, dead_columns=0, fit_errors=0)
+              y1d=0, dead_columns=0, fit_errors=0, histories=0, history_stages=collections.Counter(),
+              history_refits_compared_with_fresh=0, history_center_on_to_off=0, history_center_off_to_on=0,
+              history_guard_probes=collections.Counter())
     resmax = dict(res_orth=0.0, res_eig=0.0, res_pen=0.0, res_gpen=0.0, res_yhat=0.0)
-    for _ in range(ncases):
-        c = H.gen_case(ctx.rng, ctx.quick)
-        r, est = H.run_impl(c)
-        info = None
-        if "error" not in r:
-            info = H.mirror(c, r)
-        else:
+
+    def account(c, r, info):
+        if "error" in r:
             st["fit_errors"] += 1
-        cases.append(c)
-        recs.append(r)
-        infos.append(info)
-        ests.append(est)
         st["kernel"][c["kernel"]] += 1
         st["regressor"][c["regressor"]] += 1
         st["center"][str(c["center"])] += 1
@@ -89,13 +90,54 @@ def run(ctx):
                 for k in ("res_orth", "res_eig", "res_pen", "res_gpen", "res_yhat"):
                     kk = "res_yhat_lstsq_W" if (k == "res_yhat" and c["regressor"] == "pre_noW") else k
                     resmax[kk] = max(resmax.get(kk, 0.0), info[k])
-    # ---- search: the property's equivalences executed on the implementation
+
+    for _ in range(ncases):
+        c = H.gen_case(ctx.rng, ctx.quick)
+        r, est = H.run_impl(c)
+        info = H.mirror(c, r) if "error" not in r else None
+        cases.append(c)
+        recs.append(r)
+        infos.append(info)
+        # search: the property's equivalences executed on the implementation
+        premsgs.append(H.oracle(c, r, est, info))
+        origin.append(None)
+        account(c, r, info)
+    hists = []
+    for hi in range(nhist):
+        h = H.gen_history(ctx.rng, ctx.quick)
+        hists.append(h)
+        st["histories"] += 1
+        for si, (r, info, msgs) in enumerate(H.run_history(h, st["history_guard_probes"])):
+            c = h["stages"][si]
+            cases.append(c)
+            recs.append(r)
+            infos.append(info)
+            premsgs.append(msgs)
+            origin.append((hi, si))
+            account(c, r, info)
+            st["history_stages"][h["kinds"][si]] += 1
+            if si > 0 and info is not None and info["skip"] is None:
+                st["history_refits_compared_with_fresh"] += 1
+                prev = h["stages"][si - 1]
+                st["history_center_on_to_off"] += bool(prev["center"] and not c["center"])
+                st["history_center_off_to_on"] += bool(c["center"] and not prev["center"])
     found = collections.OrderedDict()
     n_oracle_msgs = 0
-    for i, (c, r, est, info) in enumerate(zip(cases, recs, ests, infos)):
-        for key, msg in H.oracle(c, r, est, info):
+    for i, msgs in enumerate(premsgs):
+        for key, msg in msgs:
             n_oracle_msgs += 1
             found.setdefault(key, []).append((i, msg))
+
+    def slim_i(i):
+        rep = slim(cases[i], recs[i])
+        if origin[i] is not None:
+            hi, si = origin[i]
+            rep["case"] = dict(history=dict(stages=hists[hi]["stages"][:si + 1], kinds=hists[hi]["kinds"][:si + 1]),
+                               stage=si)
+            rep["note_history"] = ("ONE estimator object: stage 0 constructs and fits; every later stage calls "
+                                   "set_params with that stage's arguments and fits again; the failure is "
+                                   "observed after the last stage listed")
+        return rep
     # ---- correspondence inside Coq
     idx = [i for i, info in enumerate(infos) if info is not None and info["skip"] is None]
     texts = [H.case_coq(cases[i], recs[i], infos[i]) for i in idx]
@@ -110,7 +152,22 @@ def run(ctx):
         groups.append(cur)
     shards = [C.SHARD_HEAD + SHARD_IMPORTS + "Definition verdicts : list (list nat) := [\n %s].\n"
               "Eval vm_compute in verdicts.\n" % ";\n ".join("failed_at (%s)" % t for _, t in g) for g in groups]
+    # ---- rejection branches of fit (Model/KPCovRGuard.v), one extra shard
+    nguard = 250 if ctx.quick else 1500
+    gcases = [H.gen_guard_case(ctx.rng) for _ in range(nguard)]
+    gobs = [H.run_guard(g) for g in gcases]
+    shards.append(C.SHARD_HEAD + "From Coq Require Import ZArith List. Import ListNotations.\n"
+                  "From Verif Require Import ListX KPCovRGuard.\nOpen Scope Z_scope.\n"
+                  "Definition verdicts : list bool := [\n %s].\nEval vm_compute in (failing verdicts).\n"
+                  % ";\n ".join(H.guard_coq(g, o) for g, o in zip(gcases, gobs)))
     outs = C.run_shards(ctx.prop, shards)
+    grc, gout = outs.pop()
+    glists = C.parse_nat_lists(gout) if grc == 0 else []
+    guard_failed = glists[0] if glists else None
+    st["guard_outcomes"] = dict(collections.Counter(
+        ["accept", "regressor type", "kernel mismatch", "features", "dual ndim", "dual shape", "n_components"][o["code"]]
+        if o["code"] < 7 else "other exception" for o in gobs))
+    st["guard_n_components_none"] = sum(g["k"] is None for g in gcases)
     mismatched, corr_broken = {}, []
     n_checks = 0
     for g, (rc, out) in zip(groups, outs):
@@ -136,21 +193,40 @@ def run(ctx):
     for key, lst in found.items():
         i, msg = lst[0]
         oracle_cases.update(j for j, _ in lst)
-        rep = slim(cases[i], recs[i])
+        rep = slim_i(i)
         rep["oracle_key"] = key
         rep["cases_with_this_failure"] = len(lst)
-        C.report_violation(ctx, "C05 fails on the implementation: " + msg, rep,
-                           key=finding_key(key), found_input=True)
+        if key.startswith("model_"):
+            C.report_violation(ctx, "correspondence KernelPCovR object model vs implementation broken: " + msg, rep,
+                               found_input=False)
+        else:
+            C.report_violation(ctx, "C05 fails on the implementation: " + msg, rep,
+                               key=finding_key(key), found_input=True)
     only_corr = [i for i in sorted(mismatched) if i not in oracle_cases]
     for i in only_corr[:3]:        # at most three replay files; the total is recorded in each
         fails = mismatched[i]
         names = [check_name(p) for p in fails]
-        rep = slim(cases[i], recs[i])
+        rep = slim_i(i)
         rep["failed_checks"] = names
         rep["cases_with_a_correspondence_mismatch"] = len(only_corr)
         rep["note"] = "model and implementation disagree but the property oracle accepts the outputs"
         C.report_violation(ctx, "correspondence KernelPCovR model vs implementation broken: " + "; ".join(names[:3]),
                            rep, found_input=False)
+    if guard_failed is None:
+        corr_broken.append(gout[-1500:])
+    else:
+        for gi in guard_failed[:3]:
+            g, o = gcases[gi], gobs[gi]
+            rep = dict(case=dict(guard=g), observed=o, cases_with_this_failure=len(guard_failed))
+            if o["code"] != 0 and H.guard_expected_accept(g, o):
+                C.report_violation(ctx, "C05 fails on the implementation: fit raised on an admissible call "
+                                   "(regressor=%s, n_components=%r, n=%d): %s" % (g["reg"], g["k"], g["n"], o["msg"]),
+                                   rep, found_input=True)
+            else:
+                C.report_violation(ctx, "correspondence KernelPCovR.fit guards model vs implementation broken: "
+                                   "model %s, implementation outcome code %d (%s), n_components_=%s, pkt_ columns=%s"
+                                   % (o["reg_term"], o["code"], o["msg"][:120], o["ncomp"], o["cols"]),
+                                   rep, found_input=False)
     for txt in corr_broken:
         C.report_violation(ctx, "correspondence shard did not evaluate", dict(coq_output=txt), found_input=False)
     if not po["ok"]:
@@ -193,7 +269,8 @@ def run(ctx):
                     "k < n_train, a held-out set of size != n_train observed, not gated and in agreement" % (
                         ",".join(H.KERNELS), ",".join(H.REGRESSORS)),
                traces_validated_against_impl=validated, samples=samples, distribution=dist,
-               anchor_drift=changed, oracle_runs=len(cases), coq_cases=n_checks)
+               anchor_drift=changed, oracle_runs=len(cases), coq_cases=n_checks,
+               guard_cases=len(gcases), guard_cases_agreeing=(len(gcases) - len(guard_failed)) if guard_failed is not None else 0)
     return C.finish(ctx, "proof", cov, [
         "kernel evaluation, the eigen-decomposition of K~ and the two pseudo-inverses are oracles constrained by hypotheses",
         "theorems are over an arbitrary real closed field; rounding is covered only by the per-run comparison (rtol 1e-7)",
@@ -203,9 +280,21 @@ def run(ctx):
 
 def replay(ctx, obj):
     c = obj["case"]
-    r, est = H.run_impl(c)
-    info = H.mirror(c, r) if "error" not in r else None
-    msgs = H.oracle(c, r, est, info)
+    if "guard" in c:
+        o = H.run_guard(c["guard"])
+        print("replay: fit outcome code %d %s; n_components_=%s pkt_ columns=%s; recorded outcome was code %s" % (
+            o["code"], o["msg"], o["ncomp"], o["cols"], obj.get("observed", {}).get("code")))
+        bad = o["code"] != 0 and H.guard_expected_accept(c["guard"], o)
+        print("replay: fit raises on an admissible call" if bad else "replay: no property failure on this call")
+        return 1 if bad else 0
+    if "history" in c:
+        out = H.run_history(c["history"])
+        msgs = out[min(c.get("stage", len(out) - 1), len(out) - 1)][2] if out else []
+        print("replay: one estimator object, %d fits (%s)" % (len(out), " -> ".join(c["history"]["kinds"])))
+    else:
+        r, est = H.run_impl(c)
+        info = H.mirror(c, r) if "error" not in r else None
+        msgs = H.oracle(c, r, est, info)
     for key, msg in msgs:
         print("replay: [%s] %s" % (key, msg))
     if not msgs:
